@@ -773,7 +773,7 @@ async fn gossip_cases(cands: &[(Spec, Candidate)]) -> anyhow::Result<Vec<(usize,
         .await
         .map_err(|e| anyhow::anyhow!("subscribe: {e}"))?;
     let (sender, mut receiver) = topic.split();
-    tokio::time::timeout(std::time::Duration::from_secs(20), receiver.joined()).await.map_err(|_| anyhow::anyhow!("the hostile endpoint did not become a gossip neighbour within 20 s"))?.map_err(|e| anyhow::anyhow!("joined: {e}"))?;
+    tokio::time::timeout(std::time::Duration::from_secs(90), receiver.joined()).await.map_err(|_| anyhow::anyhow!("the hostile endpoint did not become a gossip neighbour within 90 s"))?.map_err(|e| anyhow::anyhow!("joined: {e}"))?;
     let drain = tokio::spawn(async move { while receiver.next().await.is_some() {} });
     let probe_author = iroh_docs::Author::from_bytes(&[0x77; 32]);
     let mut model = crate::refmodel::ModelReplica::default();
@@ -804,7 +804,7 @@ async fn gossip_cases(cands: &[(Spec, Candidate)]) -> anyhow::Result<Vec<(usize,
         // wait for the probe
         let start = std::time::Instant::now();
         let mut arrived = false;
-        while start.elapsed() < std::time::Duration::from_secs(15) {
+        while start.elapsed() < std::time::Duration::from_secs(45) {
             match doc.get_exact(probe_author.id(), probe_key.as_bytes(), false).await {
                 Ok(Some(_)) => {
                     arrived = true;
@@ -818,7 +818,7 @@ async fn gossip_cases(cands: &[(Spec, Candidate)]) -> anyhow::Result<Vec<(usize,
             }
         }
         if !arrived {
-            bad.push((i, "forged_entry_does_not_stop_reception", format!("after the gossip neighbour sent candidate {} (predicate: {}), a validly signed entry sent next never entered the replica (15 s)", c.label, if ok { "acceptable" } else { "not acceptable" })));
+            bad.push((i, "forged_entry_does_not_stop_reception", format!("after the gossip neighbour sent candidate {} (predicate: {}), a validly signed entry sent next never entered the replica (45 s)", c.label, if ok { "acceptable" } else { "not acceptable" })));
             break;
         }
         // the replica (without the probes)
